@@ -97,7 +97,7 @@ ASSUMPTIONS = [
     "configuration histories: two TPDOs, four layouts of statusword / mode display; a re-mapping is followed by "
     "setup_pdos(upload=False); RPDO1 is never re-mapped; a drive transmits all its TPDOs in one cycle showing the "
     "same sample (frames showing different values: op `swl`); histories that end with TPDO1 switched off are "
-    "left out of the generated stream (the unchanged tree then waits for TPDO1 for ever: see TPDO1_OFF_IN_STREAM)",
+    "judged by the oracle alone (the unchanged tree then waits for TPDO1 for ever: recorded open finding F27, signature cfg:tpdo1-off)",
 ]
 RULE = ("ops `sw n t` (decode statusword n over transport t), `goto start rst target transport auto12 d "
         "extra F S schedule` (one assignment against the reference drive), `hist start rst transport auto12 extra F S "
@@ -108,7 +108,7 @@ RULE = ("ops `sw n t` (decode statusword n over transport t), `goto start rst ta
         "object after its first set-up: a/b = setup_pdos(upload=False/True), m = setup_402_state_machine(), t/r/q = "
         "node.tpdo/rpdo/pdo.read(), y = statusword additionally mapped in TPDO2, x = statusword moved to TPDO2, w = "
         "back to TPDO1 (each re-mapping: maps changed on the node object, save(), setup_pdos(False)), z = TPDO1 "
-        "switched off, everything in TPDO2 (generated only with VERIF_C19_TPDO1_OFF=1); `hist` items 10..15 = a b m t "
+        "switched off, everything in TPDO2 (recorded finding F27; VERIF_C19_TPDO1_OFF=0 leaves them out); `hist` items 10..15 = a b m t "
         "r q between assignments; `swl n1 n2 k p<history>` = statusword in both TPDOs, the other TPDO shows n1, then "
         "TPDO k shows n2; 37 systematic histories x (decoding of all low-7-bit patterns, all 8x8 pairs, all modes) "
         "plus seeded histories; "
@@ -892,10 +892,11 @@ def oracle_mhist(a, out):
 
 
 TRANSPORT_POS = {"sw": 2, "swl": 4, "goto": 4, "hist": 3, "mode": 3, "modef": 3, "mhist": 1}
-# Histories that end with TPDO1 switched off (layout `z`) are not generated unless asked for: on the unchanged
-# tree `tpdo_pointers` keeps naming TPDO1, `check_statusword` waits for a TPDO that never comes and every
-# assignment over PDO ends in RuntimeError (reported to the coordinator as a finding candidate).
-TPDO1_OFF_IN_STREAM = bool(os.environ.get("VERIF_C19_TPDO1_OFF"))
+# Histories that end with TPDO1 switched off (layout `z`): on the unchanged tree `tpdo_pointers` keeps naming TPDO1,
+# `check_statusword` waits for a TPDO that never comes and every assignment over PDO ends in RuntimeError.  This is
+# the recorded open finding F27 (known_findings.json, signature cfg:tpdo1-off); VERIF_C19_TPDO1_OFF=0 leaves these
+# histories out of the stream.
+TPDO1_OFF_IN_STREAM = os.environ.get("VERIF_C19_TPDO1_OFF", "1") != "0"
 
 
 def cfg_of(op):
@@ -915,11 +916,12 @@ def model_skips(op):
 
 
 def signature(op, what):
-    sig = signature0(op, what)
     cfg = cfg_of(op)
     if cfg is not None and layout_after(cfg) == "z":
-        sig += ":tpdo1-off"
-    return sig
+        # one history class, one cause (recorded finding F27): after the statusword was moved to another TPDO and
+        # TPDO1 switched off, the profile keeps waiting for TPDO1
+        return "cfg:tpdo1-off"
+    return signature0(op, what)
 
 
 def signature0(op, what):
